@@ -11,7 +11,7 @@ var vpC06Props = []string{"name", "summary", "content", "preferredUsername", "so
 
 // vpC06Value builds the value holding text t at property p in form f
 // (0 single untagged, 1 single tagged, 2 two-language map with t as the first text, 3 map with t as the second text,
-// 4 map whose two tags differ only in letter case).
+// 4 map whose two tags differ only in letter case, 5 single with the tag left empty).
 func vpC06Value(p, f int, t []byte) (Item, func(Item) NaturalLanguageValues) {
 	var n NaturalLanguageValues
 	switch f {
@@ -23,6 +23,8 @@ func vpC06Value(p, f int, t []byte) (Item, func(Item) NaturalLanguageValues) {
 		n = NaturalLanguageValues{{Ref: "en", Value: Content(t)}, {Ref: "fr", Value: Content("autre")}}
 	case 4: // tags that differ only in letter case are different tags
 		n = NaturalLanguageValues{{Ref: "sr-Latn", Value: Content(t)}, {Ref: "sr-latn", Value: Content("autre")}}
+	case 5: // a single text whose tag was left empty (not the "no language" tag)
+		n = NaturalLanguageValues{{Value: Content(t)}}
 	default:
 		n = NaturalLanguageValues{{Ref: "en", Value: Content("other")}, {Ref: "fr", Value: Content(t)}}
 	}
@@ -146,7 +148,7 @@ func vpC06Check(cell string, codec int, x Item, get func(Item) NaturalLanguageVa
 	}
 	got := get(y)
 	wantLen := 1
-	if f >= 2 {
+	if f >= 2 && f <= 4 {
 		wantLen = 2
 	}
 	vpAssert("entries/"+cell, len(got) == wantLen)
@@ -161,7 +163,7 @@ func vpC06Check(cell string, codec int, x Item, get func(Item) NaturalLanguageVa
 	if f == 4 {
 		vpAssert("tags-preserved/"+cell, got[0].Ref == "sr-Latn" && got[1].Ref == "sr-latn")
 		vpAssert("other-text-preserved/"+cell, string(got[1].Value) == "autre")
-	} else if f >= 2 {
+	} else if f >= 2 && f <= 4 {
 		vpAssert("tags-preserved/"+cell, got[0].Ref == "en" && got[1].Ref == "fr")
 		other := "autre"
 		if f == 3 {
@@ -180,7 +182,7 @@ func vpC06Text(n int, full bool) {
 	p, f, codec := 0, 0, 0
 	if full {
 		p = vpChoice(len(vpC06Props))
-		f = vpChoice(5)
+		f = vpChoice(6)
 		codec = vpChoice(2)
 	} else {
 		// reduced matrix: name as single text and as map entry in JSON, source content in JSON, content in gob
@@ -293,7 +295,7 @@ func vpH_C06_backslash() {
 	vpAssume(c < 0x80)
 	t := []byte{'a', ' ', '\\', c, ' ', 'b'}
 	p := vpChoice(len(vpC06Props))
-	f := vpChoice(5)
+	f := vpChoice(6)
 	codec := vpChoice(2)
 	x, get := vpC06Value(p, f, t)
 	cell := "backslash/" + vpC06Props[p] + "/form" + string([]byte{'0' + byte(f)}) + "/" + []string{"json", "gob"}[codec]
@@ -324,7 +326,7 @@ func vpH_C06_jsonlike() {
 		t = []byte{'-', d, '.', d}
 	}
 	p := vpChoice(len(vpC06Props))
-	f := vpChoice(5)
+	f := vpChoice(6)
 	codec := vpChoice(2)
 	x, get := vpC06Value(p, f, t)
 	cell := "jsonlike/" + vpC06Props[p] + "/form" + string([]byte{'0' + byte(f)}) + "/" + []string{"json", "gob"}[codec]
@@ -337,7 +339,7 @@ func vpH_C06_fixed() {
 	texts := []string{"<p>Hi & \"you\"</p>", "line1\nline2\ttab\r", "\U0001F600 \u00e9 \u2028", "C:\\new\\table", "\\u0041 \\\\ \\\"", "\x7f\x01\x1f"}
 	t := []byte(texts[vpChoice(len(texts))])
 	p := vpChoice(len(vpC06Props))
-	f := vpChoice(5)
+	f := vpChoice(6)
 	codec := vpChoice(2)
 	x, get := vpC06Value(p, f, t)
 	cell := "fixed/" + vpC06Props[p] + "/form" + string([]byte{'0' + byte(f)}) + "/" + []string{"json", "gob"}[codec]
